@@ -20,8 +20,10 @@ class _Scorer:
         return self.table[id(infos)]
 
 
-def run_competition(strategy, groups, infos, scores, seed):
-    """Run the real do_competition, recording the permutation each np.random.shuffle applies."""
+def run_competition(strategy, groups, infos, scores, seed, prior=None):
+    """Run the real do_competition, recording the permutation each np.random.shuffle applies. [prior] = (infos, scores) of an earlier
+    call on the SAME strategy object and the same groups (the two passes of a rescue method re-use the object): nothing but the
+    cleared seen-set may survive it."""
     from picked_group_fdr import competition
     from picked_group_fdr.protein_groups import ProteinGroups
     perms = []
@@ -34,6 +36,14 @@ def run_competition(strategy, groups, infos, scores, seed):
         x[:] = [x[i] for i in idx]
 
     strat = competition.ProteinCompetitionStrategyFactory(strategy)
+    if prior:
+        p_infos = [[(float(Fraction(p)), e, list(pr)) for p, e, pr in inf] for inf in prior[0]]
+        p_table = {id(i): float(Fraction(sc)) for i, sc in zip(p_infos, prior[1])}
+        np.random.seed(seed)
+        try:
+            strat.do_competition(ProteinGroups([list(g) for g in groups]), p_infos, _Scorer(p_table))
+        except Exception:
+            pass
     infos_l = [[(float(Fraction(p)), e, list(pr)) for p, e, pr in inf] for inf in infos]
     table = {id(i): float(Fraction(s)) for i, s in zip(infos_l, scores)}
     np.random.seed(seed)
@@ -54,6 +64,16 @@ def run_competition(strategy, groups, infos, scores, seed):
     return out
 
 
+def gen_infos(rng, g):
+    inf = []
+    for e in rng.sample(gens.PEPTIDES, rng.choice([0, 1, 1, 2, 3, 4])):
+        prots = rng.sample(g, rng.randint(1, len(g)))
+        if rng.random() < 0.1:
+            prots = prots + [prots[0]]
+        inf.append([gens.grid_pep(rng, small=True), e, prots])
+    return inf
+
+
 def gen_case(rng, big=False):
     nb = rng.choice([2, 3, 4, 6])
     ng = rng.randint(1, 12 if not big else 30)
@@ -69,18 +89,15 @@ def gen_case(rng, big=False):
                 g.append(p)
         if rng.random() < 0.15:
             g = ["OBSOLETE__" + p for p in g]
-        npep = rng.choice([0, 1, 1, 2, 3, 4])
-        inf = []
-        for e in rng.sample(gens.PEPTIDES, npep):
-            prots = rng.sample(g, rng.randint(1, len(g)))
-            if rng.random() < 0.1:
-                prots = prots + [prots[0]]
-            inf.append([gens.grid_pep(rng, small=True), e, prots])
         groups.append(g)
-        infos.append(inf)
+        infos.append(gen_infos(rng, g))
         scores.append(gens.fr(rng.choice([1.0, 2.0, 2.0, 3.5, 7.25]) + (rng.choice([0, 1, 2, 3]) * 2.0 ** -30 if near else 0.0)))
-    return {"strategy": rng.choice(list(STRATS)), "groups": groups, "infos": infos, "scores": scores,
+    case = {"strategy": rng.choice(list(STRATS)), "groups": groups, "infos": infos, "scores": scores,
             "seed": rng.randint(0, 2 ** 31 - 1)}
+    if rng.random() < 0.25:
+        # an earlier call on the same strategy object with the same groups and other evidence (first pass / rescue pass)
+        case["prior"] = [[gen_infos(rng, g) for g in groups], [gens.fr(rng.choice([1.0, 2.0, 3.5, 7.25])) for _ in groups]]
+    return case
 
 
 class CompetitionSuite(Suite):
@@ -98,7 +115,8 @@ class CompetitionSuite(Suite):
     rule = ("1-12 groups over 2-6 base identifiers with REV__/rev_/OBSOLETE__/CON__ decorations (cleaned ids collide), "
             "0-4 peptides each mapping to sub-lists of the group, scores from a 4-value set (a fifth of the inputs: those values plus 0-3 times 2^-30); exhaustive 2-3 group "
             "configurations over 2 base ids; all three strategies; the two shuffles are recorded from numpy and replayed "
-            "in the model; non-trivial = a competition removal and a score tie")
+            "in the model; a quarter of the inputs run after an earlier call on the same strategy object with the same groups and other "
+            "evidence; non-trivial = a competition removal and a score tie")
 
     def gen(self, rng, tier):
         # exhaustive small scope: 2-3 groups over two base ids with every decoration
@@ -119,7 +137,7 @@ class CompetitionSuite(Suite):
             yield gen_case(rng, big=rng.random() < 0.05)
 
     def impl(self, case):
-        return run_competition(case["strategy"], case["groups"], case["infos"], case["scores"], case["seed"])
+        return run_competition(case["strategy"], case["groups"], case["infos"], case["scores"], case["seed"], case.get("prior"))
 
     def render_in_with(self, case, perms):
         p1 = perms[0] if len(perms) > 0 else []
